@@ -797,6 +797,23 @@ def r13_history_layout(idx, r):
     r10_history_siblings(idx, r)
 
 
+def r14_auto_value_checked_before_use(idx, r):
+    """Flag._resolveAutos hands out the next free bit: the skip over values already taken must come BEFORE the current candidate is used in
+    each iteration - checked afterwards, an auto flag lands on a bit that an explicitly numbered flag registered since the last resolution."""
+    f = idx.method("armi.utils.flags.Flag", "_resolveAutos")
+    loop = next((x for x in walk_local(f.node) if isinstance(x, ast.For)), None)
+    if loop is None:
+        raise AnchorMissing("Flag._resolveAutos: loop over the fields")
+    skip = [i for i, st_ in enumerate(loop.body) if isinstance(st_, ast.While) and isinstance(st_.test, ast.Compare) and isinstance(st_.test.ops[0], ast.In) and "_autoAt" in norm(st_.test.left) and "_valuesTaken" in norm(st_.test)]
+    use = [i for i, st_ in enumerate(loop.body) if not isinstance(st_, ast.While) and any(isinstance(x, ast.Attribute) and x.attr == "_autoAt" and isinstance(x.ctx, ast.Load) for x in ast.walk(st_))
+           and not (isinstance(st_, ast.AugAssign) and "_autoAt" in norm(st_.target))]
+    if not skip or not use:
+        raise AnchorMissing("_resolveAutos: skip loop over taken values and use of the candidate")
+    r.require(min(skip) < min(use), "auto-flag:taken-values-skipped-before-the-candidate-is-used", f, node=loop.body[min(use)],
+              msg="the candidate bit is handed out before the values already taken are skipped: an automatically numbered flag can receive the bit of an explicitly numbered one, and the two "
+                  "flags are indistinguishable in every stored flag set")
+
+
 def run(idx, chk):
     chk.explanation = (
         "C05: pack/unpack are sibling implementations; their attrs key sets, strategy decision trees, None-sentinel tables, "
@@ -830,3 +847,5 @@ def run(idx, chk):
                  necessary="any pattern of unset entries is returned at the same positions")
     chk.run_rule("R05.13", "history reads decode each step with that step's own layout and restore None for stored unset markers (shared with R06.10)", lambda r: r13_history_layout(idx, r), floor=7,
                  necessary="values are returned for the object they were written for, with the same unset positions")
+    chk.run_rule("R05.14", "an automatically numbered flag gets a bit only after the taken values were skipped", lambda r: r14_auto_value_checked_before_use(idx, r), floor=1,
+                 necessary="flag sets keep their meaning: no two flags share a bit")
